@@ -7,7 +7,22 @@ fn run_one<C: Suite>(ctx: &mut Ctx) {
 
 fn main() {
     let mut ctx = fv::cli::parse();
+    if let Some(p) = fv::cli::prelude_suite() {
+        fn pre<D: Suite>() {
+            fv::cli::prelude::<D>()
+        }
+        with_suite!(p.as_str(), pre,);
+        ctx.note("prelude_suite", serde_json::json!(p));
+    }
     let suite = ctx.suite.clone();
+    let args: Vec<String> = std::env::args().collect();
+    if let Some(i) = args.iter().position(|a| a == "--resume") {
+        fn res<C: Suite>(ctx: &mut Ctx, f: &str) {
+            fv::props::c13::xproc_resume::<C>(ctx, f)
+        }
+        with_suite!(suite.as_str(), res, &mut ctx, &args[i + 1]);
+        std::process::exit(ctx.finish());
+    }
     with_suite!(suite.as_str(), run_one, &mut ctx);
     std::process::exit(ctx.finish());
 }
